@@ -411,12 +411,12 @@ def job_concat(loc, tier):
 
 def main(tier):
     run = check.Run(PID, tier)
-    check.JOB_BUDGET[0] = 400 if tier == "quick" else 3000
+    check.JOB_BUDGET[0] = 400 if tier == "quick" else 1500
     check.run_jobs([(_compile, (tier,))])
     jobs = [(job_eval, ("T1", N, tier)) for N in (1, 2, 3)] + [(job_eval, ("T2", 2, tier))]
     jobs += [(job_crop, (N, loc, tier)) for N in ((1, 2) if tier == "quick" else (1, 2, 3)) for loc in (1, 0)]
     jobs += [(job_cv, (K, tier)) for K in (1, 2, 3, 4, 5)] + [(job_fc, ("T1", tier)), (job_fc, ("T2", tier))] + [(job_concat, (loc, tier)) for loc in (1, 0)]
-    run.extend(check.run_jobs(jobs, timeout=1200 if tier == "quick" else 7200))
+    run.extend(check.run_jobs(jobs, timeout=1200 if tier == "quick" else 1800))
     run.bounds += ["groups double and Vector2d (exact rational curves); degree 3 for states, K=1..5 for ConstantVelocity; N <= 3 segments (crop N<=2 quick, <=3 thorough)",
                    "arbitrary representation-invariant state per operation (inductive step), all times symbolic"]
     run.assumptions += ["layer R", "non-commutative groups: not encoded for Spline (cumulative evaluation on SO3/SE2 is C11)", "arclength: not encoded in this round"]
